@@ -7,6 +7,7 @@ import (
 	"bufio"
 	"encoding/json"
 	"fmt"
+	"io"
 	"os"
 	"os/exec"
 	"path/filepath"
@@ -1091,4 +1092,12 @@ func cellSample(cells map[string]struct{}, n int) []string {
 		out = append(out, keys[i])
 	}
 	return out
+}
+
+// InitNullCtx prepares a Ctx that records nothing (used by helper child processes that reuse engine code).
+func InitNullCtx(c *Ctx) {
+	c.out = json.NewEncoder(io.Discard)
+	c.cells = map[string]struct{}{}
+	c.counts = map[string]int64{}
+	c.maxes = map[string]int64{}
 }
